@@ -10,6 +10,12 @@
       exactly the fields of the aggregate — modelled as `guard*`, a verdict, not a theorem about rustc;
     * a field read into a `_` pattern is a temporary dropped at the end of its `let` statement
       ("immediately"); a bound field becomes a variable of the caller.
+
+  Not modelled (a fact about pointers, not about which field is read): struct fields are read with
+  `read_unaligned` because a `#[repr(packed)]` struct may hold them at misaligned offsets.  It is OBSERVED:
+  the generated programs destructure packed structs with misaligned u16/u32/u64/String fields inside
+  `const` items / `const fn`s (the const evaluator rejects a misaligned typed read, E0080) and, in the
+  thorough tier, under Miri (`destr.const`, `destr.miri`, vlib/progs/c15.py).
 -/
 namespace Konst.Destructure
 
